@@ -15,7 +15,7 @@ META = {
     "technique": "Lean 4 theorems over a hand-written step model of PriorityEncoderAllocator whose encoder is a "
     "transcription of MultiPriorityEncoder._build_tree (proved equal to 'first K set bits'); invariant/refinement "
     "to a set of free identifiers; lock-step correspondence of the model with the real component in pysim",
-    "level_text": "c25_no_double/c25_distinct/c25_ready/c25_peek/c25_replace_clear/c25_update/c25_history are proved "
+    "level_text": "c25_encoder/c25_no_double/c25_distinct/c25_ready/c25_peek/c25_replace_clear/c25_update/c25_history are proved "
     "for every (entries, alloc_ways, free_ways, init) and every call history that only frees allocated identifiers; "
     "the model (with the real encoder tree inside) is tied to the code by cycle-exact comparison of done bits, "
     "returned identifiers, peeked masks and alloc ready bits over entries 1..9,16,17 x alloc_ways 1..entries+1 x "
@@ -130,6 +130,19 @@ def monitor(case: Case, out: list[str]):
 
 
 # ------------------------------------------------------------------ generators
+def _corpus() -> list[Case]:
+    """directed cases and minimised past failures kept under corpus/C25 (run first, monitored)"""
+    import json
+
+    from ..common import CORPUS
+
+    out = []
+    for path in sorted((CORPUS / "C25").glob("*.json")):
+        b = json.loads(path.read_text())
+        out.append(Case(b["cfg"], list(b["ops"]), b.get("desc", {}), "corpus"))
+    return out
+
+
 def _mk(n, aw, fw, init, ops, tag) -> Case:
     """ops: (attempt bits list, free list, peek, replace or None, clear)"""
     cfg = f"cfg n={n} aw={aw} fw={fw} init={init & ((1 << n) - 1)}"
@@ -211,9 +224,11 @@ def _configs(ctx: Check, rng):
         for n in [1, 2, 3, 4, 5, 6, 7, 8, 9, 16, 17]:
             full = (1 << n) - 1
             cfgs = [(1, 1, -1), (2, 2, rng.randrange(full + 1)), (rng.randint(1, min(n, 6) + 1), rng.randint(0, 3), rng.randrange(full + 1))]
-            if n <= 8:
+            if n <= 5:
                 cfgs.append((n + 1, 0, -1))
                 cfgs.append((n, 2, rng.randrange(full + 1)))
+            elif n <= 8:
+                cfgs.append((n + 1, 0, -1) if n % 2 else (n, 2, rng.randrange(full + 1)))
             else:
                 cfgs.append((3, 1, -1))
             if n in (3, 8):
@@ -226,13 +241,13 @@ def _configs(ctx: Check, rng):
                 if (n, aw, fw, init) not in out:
                     out.append((n, aw, fw, init))
         return out
-    for n in list(range(1, 20)) + [31, 32, 33]:
+    for n in list(range(1, 13)) + [16, 17, 24, 32, 33]:
         full = (1 << n) - 1
-        ways = {(1, 1), (2, 2), (3, 1), (n + 1, 0), (rng.randint(1, n + 1), rng.randint(0, 3)), (2, 1), (1, 2), (4, 3), (5, 2)}
-        if n <= 17:
-            ways |= {(n, 2), (n, n), (max(1, n - 1), 3)}
+        ways = {(1, 1), (2, 2), (3, 1), (rng.randint(1, min(n, 8) + 1), rng.randint(0, 3)), (2, 1), (1, 2), (4, 3), (5, 2)}
+        if n <= 12:
+            ways |= {(n + 1, 0), (n, 2), (n, n), (max(1, n - 1), 3)}
         for aw, fw in sorted(ways):
-            for init in (-1, rng.randrange(full + 1), 0):
+            for init in (-1, rng.randrange(full + 1)) + ((0,) if (aw, fw) == (2, 2) else ()):
                 out.append((n, aw, fw, init))
     return out
 
@@ -240,11 +255,11 @@ def _configs(ctx: Check, rng):
 def gen_cases(ctx: Check):
     rng = ctx.rng("gen")
     valid, malformed = [], []
-    length = ctx.pick(120, 500)
+    length = ctx.pick(100, 150)
     for n, aw, fw, init in _configs(ctx, rng):
         valid.append(_mk(n, aw, fw, init, _directed(n, aw, fw, init), "directed"))
         regimes = [(0.9, 0.3, 0.01, 0.01), (0.3, 0.9, 0.02, 0.01), (0.7, 0.7, 0.03, 0.03), (1.0, 1.0, 0.0, 0.0)]
-        for pa, pf, pr, pc in ctx.pick(rng.sample(regimes, 2), regimes):
+        for pa, pf, pr, pc in rng.sample(regimes, ctx.pick(2, 3)):
             valid.append(_mk(n, aw, fw, init, _valid_stream(rng, n, aw, fw, init, length, pa, pf, pr, pc), "random"))
         # malformed: arbitrary identifiers on the free ways (double frees, frees of free identifiers,
         # identifiers >= entries that still fit the argument signal); no property claim
@@ -312,6 +327,7 @@ def run(ctx: Check):
     ctx.proof_stage()
     procs = ctx.pick(1, None)
     valid, malformed = gen_cases(ctx)
+    valid = _corpus() + valid
     lockstep(ctx, "pe-allocator", "C25", valid, impl, monitor, more_cases, nontrivial, procs=procs)
     lockstep(ctx, "pe-allocator-malformed", "C25", malformed, impl, None, None, nontrivial, procs=procs)
     ctx.count("configurations", len({(c.desc["n"], c.desc["aw"], c.desc["fw"], c.desc["init"]) for c in valid}))
